@@ -1,4 +1,5 @@
 """C24 — read-test-write is atomic and guarded by the write enabler (storage/server.py)."""
+import os
 import props._storage_common as sc
 from common import hx, unhx
 
@@ -199,6 +200,40 @@ def corpus_partial_write():
         ["readv", [], [[0, 10]]], ["dump"]]}
 
 
+def corpus_oversize_with_new_length():
+    """an over-limit write vector whose entry also carries a (small / large / zero) new_length: the size pre-check must
+    look at the vector itself; two existing shares and a new one"""
+    s1, s2 = hx(b"\x41" * 32), hx(b"\x81" * 32)
+    ops = [["rtw", 1, 10 ** 12, WE, s1, s2, True, [[0, [], [[0, hx(b"old0")]], None], [1, [], [[0, hx(b"old1")]], None]], []],
+           ["dump"]]
+    for k, nl in enumerate([5, 1, 10 ** 6, None]):
+        ops += [["rtw", 2 + k, 10 ** 12, WE, s1, s2, k % 2 == 0,
+                 [[0, [], [[0, hx(b"NEW%d" % k)]], None], [1, [], [[sc.MAX - 1 + k, hx(b"yy")]], nl], [2, [], [[0, hx(b"n")]], None]],
+                 [[0, 10]]],
+                ["readv", [], [[0, 10]]], ["dump"]]
+    # with new_length = 0 the entry's vectors are not applied at all: the request is fine and deletes share 1
+    ops += [["rtw", 9, 10 ** 12, WE, s1, s2, False, [[0, [], [[0, hx(b"fine")]], None], [1, [], [[sc.MAX + 5, hx(b"y")]], 0]], []],
+            ["readv", [], [[0, 10]]], ["dump"]]
+    return {"nodeid": hx(sc.NODEID), "ops": ops}
+
+
+def corpus_absent_share_tests():
+    """entries for shares the server does not hold: their test vectors count (compared with the empty string), also
+    when the entry has no write vector; passing (empty specimen) and failing variants"""
+    s1, s2 = hx(b"\x41" * 32), hx(b"\x81" * 32)
+    return {"nodeid": hx(sc.NODEID), "ops": [
+        ["rtw", 1, 10 ** 12, WE, s1, s2, True, [[0, [], [[0, hx(b"base")]], None]], []],
+        # absent share 5, failing test, NO write vector: nothing may be applied to share 0
+        ["rtw", 2, 10 ** 12, WE, s1, s2, True, [[0, [], [[0, hx(b"XXXX")]], None], [5, [[0, 1, hx(b"z")]], [], None]], [[0, 10]]],
+        ["readv", [], [[0, 10]]], ["dump"],
+        # absent share 5, failing test, with a write vector
+        ["rtw", 3, 10 ** 12, WE, s1, s2, False, [[5, [[0, 3, hx(b"abc")]], [[0, hx(b"q")]], None], [0, [], [[0, hx(b"YYYY")]], None]], [[0, 10]]],
+        ["readv", [], [[0, 10]]],
+        # absent share 6, passing test (empty specimen), no write vector: applied; an empty container appears for 6
+        ["rtw", 4, 10 ** 12, WE, s1, s2, True, [[0, [], [[0, hx(b"ZZZZ")]], None], [6, [[0, 4, "-"]], [], None]], [[0, 10]]],
+        ["readv", [], [[0, 10]]], ["leases"], ["dump"]]}
+
+
 def corpus_mixed_enablers():
     """two shares recorded under different write enablers; requests with each of them (so that, whatever the
     directory listing order, one request matches the first-listed share only), then with a third one"""
@@ -222,9 +257,9 @@ def run(ctx):
         if ctx.replay:
             hists = [ctx.replay["case"]["history"]]
         else:
-            hists.append(corpus_partial_write())
-            hists.append(corpus_mixed_enablers())
-            n = ctx.budget(100, 5000)
+            hists += [corpus_partial_write(), corpus_mixed_enablers(), corpus_oversize_with_new_length(),
+                      corpus_absent_share_tests()]
+            n = 0 if os.environ.get("VERIF_CORPUS_ONLY") else ctx.budget(100, 5000)
             for i in range(n):
                 hists.append(gen_full_history(ctx.rng, ctx.rng.choice([3, 8, 20]), ctx.rng.choice([2000, 2000, 30000]),
                                               ctx.rng.choice([0.0, 0.0, 0.03, 0.15])))
